@@ -30,9 +30,9 @@ import time
 import uuid
 from concurrent.futures import ThreadPoolExecutor
 
-REPO = "/repo"
+REPO = os.environ.get("VERIF_REPO", "/repo")                                  # developer override only
 CACHE = "/verif/.cache/t2"
-TARGET_DIR = "/verif/.cache/target-bin"
+TARGET_DIR = os.environ.get("VERIF_T2_TARGET", "/verif/.cache/target-bin")   # developer override only
 CLIENT_BIN = TARGET_DIR + "/debug/octo-squirrel-client"
 SERVER_BIN = TARGET_DIR + "/debug/octo-squirrel-server"
 CERT_DIR = CACHE + "/certs"
